@@ -30,8 +30,9 @@ def main():
     env.pop("FFCX_REPO", None)
     out = {}
     try:
-        (wt / "_seed").mkdir(exist_ok=True)  # some demos keep their scratch files next to themselves
-        demo = wt / "_seed_demo.py"
+        # same relative layout the demos were written in: <tree>/_seed/<k>/demo.py (some derive the tree root from it)
+        (wt / "_seed" / seed.name).mkdir(parents=True, exist_ok=True)
+        demo = wt / "_seed" / seed.name / "demo.py"
         txt = (seed / "demo.py").read_text()
         # demos were written against another scratch path
         txt = re.sub(r"/tmp/mut2?/C\d\d", str(wt), txt)
